@@ -45,6 +45,10 @@ class PathEnd(Exception):
     pass
 
 
+class Unmodelled(Exception):
+    """raised by a summary that meets a value it has no model for: the call is then havocked like an unknown callee"""
+
+
 class State:
     def __init__(self):
         self.heap = {}      # oid -> {key: value}
@@ -544,7 +548,10 @@ class Exec:
                 return [st]
         for rx, h in self.summaries:
             if re.search(rx, func):
-                outs = h(self, st, func, args, dest_ty)
+                try:
+                    outs = h(self, st, func, args, dest_ty)
+                except Unmodelled as e:
+                    st.notes.append(str(e)[:160]); break
                 if outs is None:
                     continue
                 self.used_summaries[getattr(h, '__name__', 'summary') + ' <- ' + short(func)] = True
